@@ -278,7 +278,10 @@ inline rc::Gen<HCfg> cfg_gen() {
         h.friendly = *bytes(0, 80);
         Bytes hw = *bytes(0, 32);     // UCS-2LE units without NUL unit
         h.hwid.clear();
-        for (auto b : hw) { h.hwid.push_back(b ? b : 1); h.hwid.push_back(0x00 + (b & 1)); }
+        for (auto b : hw) {   // never U+0000; includes units whose low byte is zero (U+0100 ...) next to ASCII units
+            if (b % 4 == 2) { h.hwid.push_back(0x00); h.hwid.push_back((uint8_t)(1 + b % 0x4E)); }
+            else { h.hwid.push_back(b ? b : 1); h.hwid.push_back((uint8_t)(b % 4 == 3 ? 0x30 : 0x00)); }
+        }
         h.icon_state = (int)*pick({1, 1, 1, 0});
         return h;
     });
